@@ -10,21 +10,20 @@ package extrude
 //@   props C01
 // times(a, b): a * b by its inductive definition (uninterpreted, two axioms), so that "one ring of b entries per
 // point" is linear reasoning plus congruence instead of nonlinear arithmetic.
-//@ spec times(a int, b int) int
-//@   axiom forall a int, b int :: {times(a, b)} times(a + 1, b) == times(a, b) + b
-//@   axiom forall b int :: {times(0, b)} times(0, b) == 0
+//@ spec times(a int, b int) int = a * b
 
 // polygon: every extrusion point contributes one ring of sides+1 vertices, normals and (when every point carries
 // a UV) texture coordinates: vertices, normals and the uv array built in the second pass all grow by exactly one ring
 // per point (that the finished uv array is what is stored under "TexCoord" is read off the code, not proved).
 //@ func polygon
 //@   props C01 C02
-//@   unclaimed safe.index: the ring arithmetic of the triangle loop is not stated
 //@   unclaimed safe.slicebounds: not stated
 //@   unclaimed safe.nilmap: not stated
 //@   unclaimed safe.makelen: not stated
 //@   exit [C02] one_normal_per_vertex: len(normals) == len(vertices)
 //@   exit [C02] one_ring_per_point: len(vertices) == times(len(points), vertCount)
+//@   loop 1:
+//@     invariant [C02] circle: 1 <= i && i <= sides + 1 && len(circlePoints) == sides + 1 && vertCount == sides + 1 && fresh(circlePoints)
 //@   loop 2:
 //@     invariant [C02] rings: 0 <= $i && $i <= len(points) && len(vertices) == times($i, vertCount) && len(normals) == len(vertices) && vertCount == sides + 1 && fresh(vertices) && fresh(normals) && ref(vertices) != ref(normals)
 //@   loop 3:
@@ -33,18 +32,27 @@ package extrude
 //@     invariant [C02] uv_rings: 0 <= $i && $i <= len(points) && len(uvs) == times($i, vertCount) && len(vertices) == times(len(points), vertCount) && len(normals) == len(vertices) && vertCount == sides + 1 && fresh(uvs)
 //@   loop 5:
 //@     invariant [C02] uv_ring: 0 <= sideIndex && sideIndex <= vertCount && len(uvs) == times(i, vertCount) + sideIndex && len(vertices) == times(len(points), vertCount) && len(normals) == len(vertices) && vertCount == sides + 1 && fresh(uvs)
+//@   exit [C02] indices_are_vertices: forall k int :: 0 <= k && k < len(tris) ==> 0 <= tris[k] && tris[k] < len(vertices)
+//@   exit [C02] whole_triangles: len(tris) % 3 == 0
 //@   loop 6:
-//@     invariant [C02] lengths_kept: len(vertices) == times(len(points), vertCount) && len(normals) == len(vertices)
+//@     invariant [C02] lengths_kept: len(vertices) == times(len(points), vertCount) && len(normals) == len(vertices) && vertCount == sides + 1 && 0 <= $i && $i <= len(points) && len(tris) % 3 == 0 && fresh(tris)
+//@     invariant [C02] band_indices: forall k int :: 0 <= k && k < len(tris) ==> 0 <= tris[k] && tris[k] < len(vertices)
 //@   loop 7:
-//@     invariant [C02] lengths_kept: len(vertices) == times(len(points), vertCount) && len(normals) == len(vertices)
+//@     invariant [C02] lengths_kept: len(vertices) == times(len(points), vertCount) && len(normals) == len(vertices) && vertCount == sides + 1 && 0 <= pathIndex && pathIndex < len(points) && bottom == pathIndex * vertCount && (top == (pathIndex + 1) * vertCount && pathIndex < len(points) - 1 || top == 0) && 0 <= sideIndex && sideIndex <= sides && len(tris) % 3 == 0 && fresh(tris)
+//@     invariant [C02] band_indices: forall k int :: 0 <= k && k < len(tris) ==> 0 <= tris[k] && tris[k] < len(vertices)
 //@ func Polygon frameonly
 //@   props C01
 //@ func Circle.Extrude frameonly
 //@   props C01
 //@ func CircleAlongSpline.Extrude frameonly
 //@   props C01
-//@ func directionsOfExtrusionPoints frameonly
-//@   props C01
+// directionsOfExtrusionPoints: one direction per point.
+//@ func directionsOfExtrusionPoints
+//@   props C01 C02
+//@   returns dirs
+//@   ensures [C02] one_direction_per_point: len(dirs) == len(points)
+//@   loop 1:
+//@     invariant [C02] size: len(directions) == len(points) && fresh(directions) && 0 <= $i && $i <= len(points)
 //@ func DirectionsOfPoints frameonly
 //@   props C01
 //@ func directionsOfLinePoints frameonly
